@@ -315,9 +315,13 @@ func oneHistory(g *hc.Gen, o *hc.Out, scratch, bin string, h int) {
 				if q == p {
 					continue
 				}
-				form := g.Pick("JOIN", "CROSS", "COMMA")
+				form := g.Pick("JOIN", "CROSS", "COMMA", "UNION", "EXCEPT", "INTERSECT")
 				line = fmt.Sprintf("c01.selectfu2 %d %d", p, q)
 				switch form {
+				case "UNION", "EXCEPT", "INTERSECT":
+					// set operations: FOR UPDATE reaches both operands
+					line = fmt.Sprintf("c01.selectfu2 %d %d %s", p, q, strings.ToLower(form))
+					sql = fmt.Sprintf("SELECT v FROM %s %s SELECT v FROM %s FOR UPDATE", tn(p), form, tn(q))
 				case "JOIN":
 					sql = fmt.Sprintf("SELECT a.v FROM %s a JOIN %s b ON a.v = b.v FOR UPDATE", tn(p), tn(q))
 				case "CROSS":
